@@ -62,6 +62,11 @@ def generate(seed, tier, index):
         # an element-filtered wait without an event-type filter: the element filter alone must keep out the events that
         # have no element (state changes and re-definitions of the same property)
         waits[-1]["untyped"] = waits[-1]["filter_el"] and rng.random() < 0.4
+        # a property-wide wait without a type filter whose custom check only knows value events: on every state change and
+        # re-definition of the property the check raises (AttributeError) - which concerns nobody but that wait
+        if ek == "value" and ck == "check" and not waits[-1]["filter_el"] and rng.random() < 0.6:
+            waits[-1]["untyped"] = True
+            waits[-1]["raising_check"] = True
     horizon = 6.0
     nev = rng.randint(0, 14 if thorough else 8)
     evs = []
@@ -218,6 +223,8 @@ def execute(scen):
                 kw["device"] = "D"
             if not w.get("untyped"):
                 kw["event_type"] = CE.ValueUpdate if w["ek"] == "value" else CE.StateUpdate
+            elif w.get("raising_check"):
+                probes["wait_whose_check_raises_on_other_event_kinds"] = 1
             else:
                 probes["element_filtered_wait_without_type_filter"] = 1
             if w["ek"] == "value" and w["filter_el"]:
